@@ -114,15 +114,37 @@ impl BlobWriter for FileBlobWriter {
     ) -> Result<(), Box<dyn Error + Send + Sync + 'static>> {
         // Create the directory if it doesn't exist
         if let Some(parent) = path.parent() {
+            #[cfg(feature = "verif")]
+            crate::verif::hooks::fs_effect(false, "mkdir", parent, None, 0);
             create_dir_all(parent)?;
+            #[cfg(feature = "verif")]
+            crate::verif::hooks::fs_effect(true, "mkdir", parent, None, 0);
         }
 
         // Write the data to a temporary file and then rename it to the target path
         let tmp_path = path.with_extension(".INCOMPLETE");
+        #[cfg(feature = "verif")]
+        crate::verif::hooks::fs_effect(false, "create", &tmp_path, None, 0);
         let mut file = File::create(&tmp_path)?;
+        #[cfg(feature = "verif")]
+        crate::verif::hooks::fs_effect(true, "create", &tmp_path, None, 0);
+        #[cfg(feature = "verif")]
+        crate::verif::hooks::fs_effect(false, "write", &tmp_path, None, data.len());
         file.write_all(data)?;
+        #[cfg(feature = "verif")]
+        crate::verif::hooks::fs_effect(true, "write", &tmp_path, None, data.len());
+        #[cfg(feature = "verif")]
+        crate::verif::hooks::fs_effect(false, "sync", &tmp_path, None, 0);
         file.sync_all()?;
+        #[cfg(feature = "verif")]
+        crate::verif::hooks::fs_effect(true, "sync", &tmp_path, None, 0);
+        #[cfg(feature = "verif")]
+        crate::verif::hooks::fs_effect(false, "rename", &tmp_path, Some(path), 0);
+        #[cfg(feature = "verif")]
+        let verif_tmp_path = tmp_path.clone();
         std::fs::rename(tmp_path, path).map_err(|e| format!("Failed to rename file: {}", e))?;
+        #[cfg(feature = "verif")]
+        crate::verif::hooks::fs_effect(true, "rename", &verif_tmp_path, Some(path), 0);
 
         Ok(())
     }
@@ -135,7 +157,11 @@ impl BlobWriter for FileBlobWriter {
     }
 
     fn delete(&self, path: &Path) -> Result<(), Box<dyn Error + Send + Sync + 'static>> {
+        #[cfg(feature = "verif")]
+        crate::verif::hooks::fs_effect(false, "remove", path, None, 0);
         std::fs::remove_file(path)?;
+        #[cfg(feature = "verif")]
+        crate::verif::hooks::fs_effect(true, "remove", path, None, 0);
         Ok(())
     }
 
